@@ -28,7 +28,11 @@ pub struct Param {
 ///
 fn fulltext_terms(text: &str) -> String {
     let mut query = String::new();
-    for term in text.split_whitespace() {
+    //control characters (a NUL ends the query text for the full text engine) separate words like white space does
+    for term in text
+        .split(|c: char| c.is_whitespace() || c.is_control())
+        .filter(|term| !term.is_empty())
+    {
         if !query.is_empty() {
             query.push(' ');
         }
